@@ -31,7 +31,7 @@ from core.loader import AnalysisError, FuncInfo, Repo, calls_in, norm
 from core.report import Result
 
 from . import scan
-from .c04_norm import canon, dotted, leaves, loc, rename_atoms, restrict, seq, show_dotted, show_loc, strip_abs, unbox
+from .c04_norm import alternatives, canon, dotted, leaves, loc, rename_atoms, restrict, seq, show_dotted, show_loc, strip_abs, unbox
 from .c04_symx import FALSE, TRUE, Event, Formula, SymX, Term, Trace, atom, atoms_of, evaluate, f_and, f_not, f_or, implies, is_const, rewrite, show, show_formula, simplify, substitute, subterms
 from .common import stmt_of, types_of, where
 
@@ -55,7 +55,8 @@ def run(repo: Repo) -> Result:
     res.trusted_base = ["pathlib / os.path semantics", "symbolic executor rules/c04_symx.py"]
     rule_r1(repo, res)
     n = scan.run_registration(repo, res, "C04.R2")
-    res.floor("C04.R2", 7, n)
+    if not any(u["rule"] == "C04.R2" for u in res.undecided):
+        res.floor("C04.R2", 7, n)
     rule_r3(repo, res)
     rule_r4(repo, res)
     rule_r5(repo, res)
@@ -237,8 +238,7 @@ def rule_r1(repo: Repo, res: Result) -> None:
         res.add("C04.R1", f"{tag}::source root of the scan <- root_path", ok, "module names are computed relative to root_path" if ok else f"the scanner's source root is `{show_loc(got) if got is not None else '?'}`, not root_path: module names no longer start at the root directory", where(ctor.fi, ctor.node), kind="flow")
         filt = b.get(names[0]) if names else None
         pl = _param_leaves(filt, ge) if filt is not None else set()
-        ok = pl == {"exclusions", "regex_exclusions"}
-        res.add("C04.R1", f"{tag}::file filter <- exclusions / regex_exclusions", ok, "the scan filter is built from the file exclusion options" if ok else f"the scan filter is built from {sorted(pl) or 'no option'} instead of exclusions / regex_exclusions", where(ctor.fi, ctor.node), kind="flow")
+        _options_obligation(res, f"{tag}::file filter <- exclusions / regex_exclusions", pl, {"exclusions", "regex_exclusions"}, "the scan filter", ctor)
         start = [e for e in tr2.events if e.kind == "call" and e.name == "parse" and e.recv == ctor.result]
         if len(start) == 1:
             got = loc(start[0].arg(0)) if start[0].arg(0) is not None else None
@@ -253,8 +253,7 @@ def rule_r1(repo: Repo, res: Result) -> None:
         res.add("C04.R1", f"{tag}::external filter flag <- exclude_external_libraries", ok, "the flag is forwarded" if ok else f"the external-import filter receives `{show(a0, 60) if a0 is not None else '?'}` as its flag", where(ext.fi, ext.node), kind="flow")
         a2 = ext.arg(2, "external_exclusions")
         pl = _param_leaves(a2, ge) if a2 is not None else set()
-        ok = pl == {"external_exclusions", "regex_external_exclusions"}
-        res.add("C04.R1", f"{tag}::external filter patterns <- external_exclusions / regex_external_exclusions", ok, "the external patterns are forwarded" if ok else f"the external-import filter patterns are built from {sorted(pl) or 'no option'}", where(ext.fi, ext.node), kind="flow")
+        _options_obligation(res, f"{tag}::external filter patterns <- external_exclusions / regex_external_exclusions", pl, {"external_exclusions", "regex_external_exclusions"}, "the patterns of the external-import filter", ext)
     g = single("NetworkxGraph", "graph construction")
     if g is not None:
         a2 = g.arg(2, "level_limit")
@@ -264,6 +263,17 @@ def rule_r1(repo: Repo, res: Result) -> None:
         a0 = g.arg(0, "all_modules")
         ok = a0 is not None and any(x[0] == "mcall" and x[2] == "parse" for x in subterms(a0))
         res.add("C04.R1", f"{tag}::graph modules <- scan result", ok, "the graph is built from the scanned modules" if ok else "the module list of the graph does not come from the scan", where(g.fi, g.node), kind="flow")
+
+
+def _options_obligation(res: Result, key: str, got: set[str], want: set[str], what: str, e: Event) -> None:
+    """The value is computed from exactly the options `want`. An option that is missing is a violation; additional options
+    (e.g. both pattern kinds converted by one shared comprehension) cannot be judged on the level of 'depends on'."""
+    if got == want:
+        res.add("C04.R1", key, True, f"{what} is built from {' / '.join(sorted(want))}", where(e.fi, e.node), kind="flow")
+    elif not want <= got:
+        res.add("C04.R1", key, False, f"{what} is built from {sorted(got) or 'no option'} instead of {' / '.join(sorted(want))}", where(e.fi, e.node), kind="flow")
+    else:
+        res.undecide("C04.R1", key, f"{what} depends on {sorted(got)}: cannot tell whether the other options only take part in a shared computation", where(e.fi, e.node))
 
 
 def _r1_same_api_calls(repo: Repo, res: Result, T, ge: FuncInfo, gm: FuncInfo) -> None:
@@ -365,6 +375,7 @@ def rule_r3(repo: Repo, res: Result) -> None:
         # the relative location the name is built from
         rels = {l for x in subterms(el) for l in [loc(x)] if l[0] == "REL" and strip_abs(l[1]) == strip_abs(loc(reg.path))}
         if len(rels) != 1:
+            done += 1
             res.undecide("C04.R3", key + " [name relative to the source root]", f"cannot see how the registered name `{show(el, 120)}` is computed from the path relative to the source root", wh)
             continue
         rel = rels.pop()
@@ -377,7 +388,7 @@ def rule_r3(repo: Repo, res: Result) -> None:
         root = strip_abs(root)
         ok = root == ("param", root_param) if info.ctor_heap else root[0] == "attr" and root[1] == ("param", info.parse.param_names[0])
         res.add("C04.R3", key + " [relative to the source root]", ok, "names are computed from the path relative to the scanner's source root" if ok else f"module names are computed relative to `{show_loc(base_loc)}`, not to the source root handed to the scanner", wh, kind="structural")
-        alts = list(el[1]) if el[0] == "phi" else [(TRUE, el)]
+        alts = alternatives(el)
         want = canon([("parts", ("NOSUF", rel))] if base_loc[0] == "PARENT" else [("item", ("attr", root, "name")), ("parts", ("NOSUF", rel))])
         want_root = [("item", ("attr", root, "name"))]
         general = [(g, v) for g, v in alts if dotted(v) != want_root]
@@ -624,6 +635,21 @@ def _is_presence_test(t: Term | None, x: Term, graph: Term) -> bool:
     return False
 
 
+def _is_node_test(t: Term, graph: Term) -> bool:
+    """`<name> in graph` / `graph.has_node(<name>)` for any name."""
+    if t[0] == "cmp" and t[1] == "in":
+        return t[3][:2] == graph[:2] or t[3][0] == "attr" and t[3][1][:2] == graph[:2]
+    return t[0] == "mcall" and t[1][:2] == graph[:2] and t[2] == "has_node"
+
+
+def _is_edge_test(t: Term, graph: Term) -> bool:
+    """A test about an *edge* of the graph (has_edge / get_edge_data / the inherits flag of an existing edge)."""
+    for y in subterms(t):
+        if y[0] == "mcall" and y[1][:2] == graph[:2] and y[2] in ("has_edge", "get_edge_data", "has_successor", "has_predecessor"):
+            return True
+    return False
+
+
 def _holds_whenever_state_allows(f: Formula, free: set[str]) -> bool:
     """True if for every valuation of the other atoms some valuation of the `free` atoms makes `f` true."""
     names = sorted(atoms_of(f))
@@ -698,6 +724,10 @@ def rule_r4(repo: Repo, res: Result) -> None:
         elif e.name in ("add_nodes_from", "add_edges_from", "add_weighted_edges_from", "update", "add_path"):
             res.undecide("C04.R4", repo.key(e.fi, stmt_of(e.node)) + f" [{e.name}]", "bulk graph construction is not analysed", where(e.fi, e.node))
 
+    api = {"importer", "importee", "importer_parent_modules", "importee_parent_modules"}
+    opaque = tr.opaque_calls(lambda e: e.func == ("fn", gpm.fq) or e.name in api)
+    lost = f"the construction calls `{norm(opaque[0].node, 70)}`, which the analysis cannot follow" if opaque else ""
+
     def unconditional(e: Event) -> tuple[bool, str]:
         """The node / edge is created whenever the graph does not contain it yet (edges: and contains both ends)."""
         f = f_and(e.pc)
@@ -747,7 +777,8 @@ def rule_r4(repo: Repo, res: Result) -> None:
             res.undecide("C04.R4", repo.key(e.fi, stmt_of(e.node)) + " [node]", f"cannot tell which names `{show(a, 100)}` stands for (scanned modules, importers or imported names)", where(e.fi, e.node))
             continue
         res.add("C04.R4", repo.key(e.fi, stmt_of(e.node)) + f" [node from {kinds or ['?']}]", ok, "nodes are created from scanned modules / importers and their ancestors" if ok else f"`{norm(e.node, 60)}` creates a node from an *imported* name ({show(next(s[1] for s in src if s[0].startswith('IMPORTEE')), 100)}): names that are not files or directories of the scanned tree (relative import parts, functions, classes) become modules", where(e.fi, e.node), kind="flow")
-    res.floor("C04.R4.nodes", 2, k)
+    if not opaque and not any(u["rule"] == "C04.R4" for u in res.undecided):
+        res.floor("C04.R4.nodes", 2, k)
     # networkx creates missing end nodes of an edge: an edge that involves an imported name must be guarded by 'both ends are nodes'
     for e, a, b, _inh in edge_events:
         ends = [x for x in (a, b) if any(s_[0].startswith("IMPORTEE") for s_ in names.sources(x))]
@@ -756,11 +787,19 @@ def rule_r4(repo: Repo, res: Result) -> None:
         f = f_and(e.pc)
         missing = []
         for x in ends:
-            present = [key for key in atoms_of(f) if _is_presence_test(sx.atoms.get(key), x, graph)]
-            if not any(implies(f, atom(key)) for key in present):
-                missing.append(x)
+            # `x in graph` / `graph.has_node(x)` / `x in graph.nodes`, evaluated alternative by alternative for a chosen name
+            tests_ = [sx.truth(("cmp", "in", x, graph)), sx.truth(("mcall", graph, "has_node", (x,), ())), sx.truth(("cmp", "in", x, ("attr", graph, "nodes")))]
+            small = len(atoms_of(f)) <= 12
+            if not any(small and len(atoms_of(f) | atoms_of(t_)) <= 14 and implies(f, t_) for t_ in tests_):
+                present = [key for key in atoms_of(f) if _is_presence_test(sx.atoms.get(key), x, graph)]
+                if not any(implies(f, atom(key)) for key in present):
+                    missing.append(x)
         ok = not missing
         kinds_ = sorted({s_[0] for x in ends for s_ in names.sources(x)})
+        unread = [key for key in atoms_of(f) if (t_ := sx.atoms.get(key)) is not None and any(y[:2] == graph[:2] for y in subterms(t_)) and not _is_node_test(t_, graph) and not _is_edge_test(t_, graph)]
+        if not ok and unread:
+            res.undecide("C04.R4", repo.key(e.fi, stmt_of(e.node)) + f" [edge end from imported name: {', '.join(kinds_)}]", f"cannot tell whether `{unread[0][:120]}` tests that both ends are nodes", where(e.fi, e.node))
+            continue
         res.add("C04.R4", repo.key(e.fi, stmt_of(e.node)) + f" [edge end from imported name: {', '.join(kinds_)}]", ok, "edges to imported names are only added between existing nodes" if ok else f"`{norm(e.node, 60)}` adds an edge whose end `{show(missing[0], 80)}` comes from an imported name without testing that it is a node: networkx creates the missing node, so functions / classes / unresolved names become modules", where(e.fi, e.node), kind="dominance")
     # ---- the hierarchy of every scanned module: get_parent_modules(module) + [module]
     def chain_of(pos):
@@ -807,7 +846,11 @@ def rule_r4(repo: Repo, res: Result) -> None:
         if ch[1] == "full" and span[1] == -1 and span[0] in (0, 1) and okc:
             child_ok = True
     e0 = direct[0][0] if direct else None
-    res.add("C04.R4", f"{tag}::every scanned module becomes a node", child_ok, "every element of the module list becomes a node" if child_ok else f"not every scanned module becomes a node: {child_why}", where(e0.fi, e0.node) if e0 else where(init, init.node), kind="structural")
+    if not child_ok and (opaque or "type(" in child_why or "isinstance(" in child_why):
+        res.undecide("C04.R4", f"{tag}::every scanned module becomes a node", lost or f"cannot interpret the condition of the node creation ({child_why})", where(e0.fi, e0.node) if e0 else where(init, init.node))
+        child_ok = None
+    if child_ok is not None:
+        res.add("C04.R4", f"{tag}::every scanned module becomes a node", child_ok, "every element of the module list becomes a node" if child_ok else f"not every scanned module becomes a node: {child_why}", where(e0.fi, e0.node) if e0 else where(init, init.node), kind="structural")
     # consecutive inherits edges
     inherit_edges = [(e, a, b, inh) for e, a, b, inh in edge_events if inh is not None and not is_const(inh, False)]
     best = None
@@ -846,10 +889,15 @@ def rule_r4(repo: Repo, res: Result) -> None:
         if inherit_edges:
             e = inherit_edges[0][0]
             res.undecide("C04.R4", ctag, f"cannot recognise how `{norm(e.node, 60)}` links a scanned module to its ancestors", where(e.fi, e.node))
+        elif opaque:
+            res.undecide("C04.R4", ctag, lost, where(opaque[0].fi, opaque[0].node))
         else:
             res.add("C04.R4", ctag, False, "no hierarchy (inherits=True) edge is created between a scanned module and its ancestors", where(init, init.node), kind="structural")
         return
     _n, e, problems = best
+    if not parents_ok and opaque and parents_why.startswith("no node is created"):
+        res.undecide("C04.R4", ctag, lost, where(opaque[0].fi, opaque[0].node))
+        return
     if not parents_ok:
         problems = problems + [f"the ancestor nodes are not created for every scanned module: {parents_why}"]
     ok = not problems
@@ -955,8 +1003,9 @@ def _eval_guard(sx: SymX, g: Formula, facts: dict, internal: Term, depth: int):
     return evaluate(g, env)
 
 
-def _name_symbols(sx: SymX, t: Term, internal: Term, depth: int = 0) -> list[Term]:
-    """Opaque pieces (in order of first occurrence) a dotted name and the names tested for membership in `internal` are made of."""
+def _name_symbols(sx: SymX, t: Term, internal: Term, depth: int = 0, known: Formula = TRUE) -> list[Term]:
+    """Opaque pieces (in order of first occurrence) a dotted name and the names tested for membership in `internal` are made of;
+    alternatives that `known` rules out are not looked at."""
     out: list[Term] = []
 
     def add(xs) -> None:
@@ -969,20 +1018,22 @@ def _name_symbols(sx: SymX, t: Term, internal: Term, depth: int = 0) -> list[Ter
     t = unbox(t)
     if t[0] == "phi":
         for g, v in t[1]:
+            if known != TRUE and len(atoms_of(g) | atoms_of(known)) <= 14 and implies(known, f_not(g)):
+                continue
             for key in sorted(atoms_of(g)):
                 a = sx.atoms.get(key)
                 if a is not None and a[0] == "cmp" and a[1] == "in" and a[3] == internal:
-                    add(_name_symbols(sx, a[2], internal, depth + 1))
-            add(_name_symbols(sx, v, internal, depth + 1))
+                    add(_name_symbols(sx, a[2], internal, depth + 1, known))
+            add(_name_symbols(sx, v, internal, depth + 1, known))
     elif t[0] == "fstr":
         for x in t[1]:
-            add(_name_symbols(sx, x, internal, depth + 1))
+            add(_name_symbols(sx, x, internal, depth + 1, known))
     elif t[0] == "binop" and t[1] == "+":
-        add(_name_symbols(sx, t[2], internal, depth + 1))
-        add(_name_symbols(sx, t[3], internal, depth + 1))
+        add(_name_symbols(sx, t[2], internal, depth + 1, known))
+        add(_name_symbols(sx, t[3], internal, depth + 1, known))
     elif t[0] == "mcall" and t[2] == "join" and is_const(t[1], ".") and len(t[3]) == 1 and all(k == "one" for k, _x in seq(t[3][0])):
         for _k, x in seq(t[3][0]):
-            add(_name_symbols(sx, x, internal, depth + 1))
+            add(_name_symbols(sx, x, internal, depth + 1, known))
     elif t[0] != "const":
         out.append(t)
     return out
@@ -1111,8 +1162,18 @@ def rule_r5(repo: Repo, res: Result) -> None:
         b = _bind_args(convert, e)
         prefix = b.get(cp[1])
         internal = b.get(cp[2])
-        ok_i = internal is not None and any(x[0] == "mcall" and x[2] == "parse" for x in subterms(internal))
-        res.add("C04.R5", f"{tag}::internal modules <- scan result", ok_i, "the set of internal modules handed to the import conversion is computed from the scanned modules" if ok_i else f"the internal-module set of the import conversion is `{show(internal, 80) if internal is not None else '?'}`: not computed from the scanned modules, so no prefixed name can ever be recognised", where(e.fi, e.node), kind="flow")
+        from_names = internal is not None and any(x[0] == "idx" and is_const(x[2], 0) and x[1][0] == "mcall" and x[1][2] == "parse" for x in subterms(internal))
+        from_files = internal is not None and any(x[0] == "idx" and is_const(x[2], 1) and x[1][0] == "mcall" and x[1][2] == "parse" for x in subterms(internal))
+        from_scan = internal is not None and any(x[0] == "mcall" and x[2] == "parse" for x in subterms(internal))
+        ikey = f"{tag}::internal modules <- scan result"
+        if from_names:
+            res.add("C04.R5", ikey, True, "the set of internal modules handed to the import conversion is computed from the scanned module names", where(e.fi, e.node), kind="flow")
+        elif from_files:
+            res.add("C04.R5", ikey, False, "the internal-module set of the import conversion is computed from the parsed *files* only: package directories are missing, so imports of packages (`from pkg import sub_package`, names relative to module_path's parent) do not resolve", where(e.fi, e.node), kind="flow")
+        elif from_scan:
+            res.undecide("C04.R5", ikey, f"cannot tell which part of the scan result `{show(internal, 80)}` is", where(e.fi, e.node))
+        else:
+            res.add("C04.R5", ikey, False, f"the internal-module set of the import conversion is `{show(internal, 80) if internal is not None else '?'}`: not computed from the scanned modules, so no prefixed name can ever be recognised", where(e.fi, e.node), kind="flow")
         M, R = ("param", "module_path"), ("param", "root_path")
         ext = [x for x in tr.events if x.kind == "call" and x.name == "ExternalImportFilter" and x.func[0] == "cls"]
         if len(ext) == 1:
@@ -1122,7 +1183,7 @@ def rule_r5(repo: Repo, res: Result) -> None:
             res.undecide("C04.R5", f"{tag}::absolute-import prefix", "no prefix argument", where(e.fi, e.node))
         else:
             prefix = restrict(prefix, e.guard)
-            alts = list(prefix[1]) if prefix[0] == "phi" else [(TRUE, prefix)]
+            alts = alternatives(prefix)
             # `name or "."`: the name when it is not empty, else the constant
             expanded = []
             for g, v in alts:
@@ -1177,7 +1238,7 @@ def rule_r5(repo: Repo, res: Result) -> None:
             if carried:
                 res.add("C04.R5", key + " [absolute importee adjusted]", False, f"the importee of one imported name depends on the previous one: `{carried[0][1]}` is carried over from an earlier iteration of the loop over the imported names", where(e.fi, e.node), kind="flow")
                 continue
-            verdict, detail = _check_adjusted(sx2, name, P, I, e.guard)
+            verdict, detail = _check_adjusted_by_cases(sx2, name, P, I, e.guard)
             if verdict is None:
                 res.undecide("C04.R5", key + " [absolute importee adjusted]", detail, where(e.fi, e.node))
             else:
@@ -1194,12 +1255,37 @@ def rule_r5(repo: Repo, res: Result) -> None:
     res.floor("C04.R5.imports", 2, k2)
 
 
+def _check_adjusted_by_cases(sx: SymX, name: Term, P: Term, I: Term, guard: Formula):
+    """`_check_adjusted` for every case of the tests inside the name that distinguish the kind of the import statement
+    (`isinstance(node, ast.ImportFrom)`): one constructor call may serve `import x` and `from x import y`."""
+    cases = []
+    for key in sorted(_all_guard_atoms(sx, name, I)):
+        t = sx.atoms.get(key)
+        if t is not None and t[0] == "call" and t[1] == ("builtin", "isinstance"):
+            cases.append(key)
+    if not cases or len(cases) > 3:
+        return _check_adjusted(sx, name, P, I, guard)
+    verdicts = []
+    for values in itertools.product([False, True], repeat=len(cases)):
+        known = f_and([guard, *[(atom(k) if v else f_not(atom(k))) for k, v in zip(cases, values)]])
+        if len(atoms_of(known)) <= 12 and not implies(TRUE, f_not(known)) is False and simplify(known) == FALSE:
+            continue
+        verdicts.append(_check_adjusted(sx, restrict(name, known), P, I, known))
+    bad = [v for v in verdicts if v[0] is False]
+    if bad:
+        return bad[0]
+    unknown = [v for v in verdicts if v[0] is None]
+    if unknown:
+        return unknown[0]
+    return verdicts[0] if verdicts else (None, "no feasible case of the import statement kinds")
+
+
 def _check_adjusted(sx: SymX, name: Term, P: Term, I: Term, guard: Formula = TRUE):
     """Decision table of an absolute importee over membership of the candidate names in the internal-module set.
 
     Expected: x = `prefix.n` if that is internal else `n`; for `from n import a`: `x.a` if that is internal else x."""
     # the raw symbols the name is made of (module / alias names of the ast node), in values and in the guards of choices
-    syms = [x for x in _name_symbols(sx, name, I) if x != P]
+    syms = [x for x in _name_symbols(sx, name, I, 0, guard) if x != P]
     if any(not (x[0] == "attr" and x[2] in ("name", "module")) for x in syms):
         odd = next(x for x in syms if not (x[0] == "attr" and x[2] in ("name", "module")))
         return None, f"cannot tell what `{show(odd, 80)}` contributes to the importee name"
